@@ -44,6 +44,10 @@ DelCol   == \E r \in Live, c \in {"a", "c"} :
                InPlace(r, IF res.ok THEN res ELSE [ok |-> FALSE, t |-> T(r), err |-> res.err], [op |-> "DelCol", r |-> r, c |-> c])
 Update   == \E r \in Live : \E items \in {<<<<"c", <<"s", V1>>>>, <<"a", <<"l", <<V1, V2>>>>>>>>, <<<<"b", <<"s", None>>>>>>} :
                InPlace(r, UpdateT(T(r), items, 1), [op |-> "Update", r |-> r, items |-> items])
+\* d[c] = e[c2]: a column taken from another (or the same) table - the two tables stay separate lists of records
+SetFrom  == \E r \in Live, r2 \in Live, c \in {"a", "c"}, c2 \in {"a", "b"} : HasCol(T(r2), c2) /\
+               LET a == <<"l", ColVals(T(r2), c2)>>  res == SetColT(T(r), c, a) IN
+               InPlace(r, IF res.ok THEN res ELSE [ok |-> FALSE, t |-> T(r), err |-> res.err], [op |-> "SetFrom", r |-> r, c |-> c, r2 |-> r2, c2 |-> c2])
 Slice    == \E r \in Live, sl \in {"first", "tail", "even", "last", "none", "rev"} : Alloc(NextReg(r), SliceT(T(r), sl), [op |-> "Slice", r |-> r, rd |-> NextReg(r), sl |-> sl])
 Mask     == \E r \in Live, m \in {"all", "nothing", "odd"} : Alloc(NextReg(r), MaskT(T(r), m), [op |-> "Mask", r |-> r, rd |-> NextReg(r), m |-> m, mask |-> MaskOf(NR(T(r)), m)])
 Take     == \E r \in Live, pos \in {<<0>>, <<-1, 0>>, <<1, 1>>} : Alloc(NextReg(r), TakeT(T(r), pos), [op |-> "Take", r |-> r, rd |-> NextReg(r), pos |-> pos])
@@ -86,10 +90,12 @@ IAddRec  == \E r \in Live, rec \in {<<<<"a", V2>>>>, <<<<"c", VX>>, <<"a", None>
 IAddTab  == \E r \in Live, rb \in Live : SoleName(r) /\
                Alloc(r, ConcatT(T(r), T(rb)), [op |-> "IAdd", r |-> r, rb |-> rb, rd |-> r])       \* rb = r: e += e
 IAddNone == \E r \in Live : Alias(r, r, [op |-> "IAddNone", r |-> r, rd |-> r])                      \* e += None, e += 0: nothing happens
+ISub     == \E r \in Live, cs \in {<<"b">>, <<"a", "d">>} : SoleName(r) /\                                 \* e -= c, e -= [c, ...]
+               Alloc(r, MinusColsT(T(r), cs), [op |-> "ISub", r |-> r, rd |-> r, cs |-> cs])
 
 Init == heap = <<>> /\ reg = [r \in Regs |-> 0] /\ out = "ok" /\ hist = <<>>
 Makers   == Slice \/ Mask \/ Take \/ Project \/ Derive \/ DeriveConst \/ DerivePair \/ Do \/ Rename \/ Swap \/ Concat \/ AddRec \/ Copy \/ Minus \/ NoFilter \/ AddNone \/ ConcatOne
-Changers == SetCol \/ DelCol \/ Update \/ IAddRec \/ IAddTab \/ IAddNone
+Changers == SetCol \/ SetFrom \/ DelCol \/ Update \/ IAddRec \/ IAddTab \/ IAddNone \/ ISub
 Next == Len(hist) < MaxDepth /\ (New \/ Makers \/ Changers)       \* exhaustive runs: no successors are built beyond the bound
 NextSim == New \/ Makers \/ Changers                               \* simulation: the depth of the run is the bound
 Bound == Len(hist) <= MaxDepth /\ \A o \in 1..Len(heap) : Len(heap[o].rows) <= MaxRowsC
@@ -97,9 +103,11 @@ Bound == Len(hist) <= MaxDepth /\ \A o \in 1..Len(heap) : Len(heap[o].rows) <= M
 DerivedSeeds == {[kind |-> "cols", cols |-> <<"a", "b">>, args |-> <<<<"l", <<V1, V2>>>>, <<"l", <<VX, None>>>>>>],
                  [kind |-> "cols", cols |-> <<"key", "a">>, args |-> <<<<"l", <<VX, V2>>>>, <<"l", <<V1, None>>>>>>],
                  [kind |-> "rows", hdrs |-> <<"a", "c">>, rows |-> <<<<V1, V2>>, <<None, VX>>>>]}
-NextDerived == \/ hist = <<>> /\ \E s \in DerivedSeeds : Alloc("r1", Construct(s), [op |-> "New", rd |-> "r1", seed |-> s])
-               \/ Len(hist) = 1 /\ Makers
-               \/ Len(hist) = 2 /\ Changers
+DerivedFrom(S) == \/ hist = <<>> /\ \E s \in S : Alloc("r1", Construct(s), [op |-> "New", rd |-> "r1", seed |-> s])
+                  \/ Len(hist) = 1 /\ Makers
+                  \/ Len(hist) = 2 /\ Changers
+NextDerived == DerivedFrom(DerivedSeeds)
+NextDerivedAll == DerivedFrom(Seeds)          \* thorough tier: from every seed table
 View == <<heap, reg, out>>
 
 \* ---- properties -------------------------------------------------------------------------------
@@ -109,7 +117,7 @@ AllRectangular == \A o \in 1..Len(heap) : Rectangular(heap[o]) /\ (heap[o].cols 
                                           /\ Cardinality(Range(heap[o].cols)) = Len(heap[o].cols)
 \* a call changes at most one existing object - the target of an in-place call - and never on rejection
 OnlyTargetChanges == [][\A o \in 1..Len(heap) : heap'[o] # heap[o] =>
-                           /\ Last(hist').op \in {"SetCol", "DelCol", "Update"}
+                           /\ Last(hist').op \in {"SetCol", "SetFrom", "DelCol", "Update"}
                            /\ o = reg[Last(hist').r]]_vars
 RejectedLeavesState == [][(out' \in {"ValueError", "KeyError", "IndexError", "TypeError"} /\ Last(hist').op # "Update") => (heap' = heap /\ reg' = reg)]_vars
 \* concatenation appends rows in order and fills absent columns with None
